@@ -1,5 +1,5 @@
 /-
-  Model of `pf/internals_toolbox.py`: `_sum_by_group_np` (argsort + cumsum + differences at run ends),
+  Model of `pf/internals_toolbox.py`: `_sum_by_group_np` (argsort + one sum per run of equal labels),
   `_sum_by_group_numba` / `_sum_values_by_index` (bucket accumulation) and of index lookups
   (`create_lookups`: dense array, label ↦ position).  Core-only, executable (run at `Int` by the driver).
 -/
@@ -54,11 +54,25 @@ def diffs : List (Nat × α) → Option α → List (Nat × α)
   | p :: t, none => p :: diffs t (some p.2)
   | p :: t, some prev => (p.1, p.2 - prev) :: diffs t (some p.2)
 
-/-- numpy variant: sort by key, cumulate, take run ends, difference -/
-def groupNp (pairs : List (Nat × α)) : List (Nat × α) :=
+/-- the numpy variant as it was before the grouped-sum repair: sort by key, cumulate over the whole array, take run ends,
+    difference.  Equal to the specification in exact arithmetic (`groupNpCumsum_eq_spec`), but in floating point every
+    group's sum inherits the rounding of the largest running total before it — the defect that was repaired. -/
+def groupNpCumsum (pairs : List (Nat × α)) : List (Nat × α) :=
   let sorted := isortBy Prod.fst pairs
   let cs := cumsum (sorted.map Prod.snd) 0
   diffs (runEnds ((sorted.map Prod.fst).zip cs)) none
+
+/-- sum each run of equal keys on its own (`np.add.reduceat` at the run starts) -/
+def runSumsAux : Nat × α → List (Nat × α) → List (Nat × α)
+  | cur, [] => [cur]
+  | cur, q :: t => if cur.1 == q.1 then runSumsAux (q.1, cur.2 + q.2) t else cur :: runSumsAux q t
+
+def runSums : List (Nat × α) → List (Nat × α)
+  | [] => []
+  | p :: t => runSumsAux p t
+
+/-- numpy variant (`_sum_by_group_np`): stable sort by key, then one sum per run of equal keys -/
+def groupNp (pairs : List (Nat × α)) : List (Nat × α) := runSums (isortBy Prod.fst pairs)
 
 /-- index lookup: position of a label in a table's index column (dense array `lookup[label] = position`) -/
 def lookupPos (labels : List Nat) (l : Nat) : Option Nat := labels.idxOf? l
